@@ -1,7 +1,7 @@
 //! C07 - block partitioning equals RFC 5052 §9.1; both ends agree; no overflow.
 use serde_json::json;
 use vh::report::*;
-use vh::session::{ref_partition, Fec, ObjSpec, OtiSpec, SPkt, SenderSpec};
+use vh::session::{ref_partition, CencSpec, Fec, ObjSpec, OtiSpec, SPkt, SenderSpec};
 use vh::scenario::{emit, receive, receive_stream, EmitOpts, RxOpts};
 use vh::util::{self, Rng};
 
@@ -347,6 +347,101 @@ fn main() {
             if i % 7 == 0 {
                 cr.sample = Some(json!({"oti": oti.json(), "L": l, "blocks": nblocks, "delivered": c.len() == 1}));
             }
+            cr
+        }));
+        // content-encoded objects: the partition is that of the TRANSFER length (compressed), on both ends, in EXT_FTI
+        // (Z for RaptorQ / Raptor) and on the wire - highly compressible data so that content and transfer lengths give
+        // different block counts; delivered FDT-first and object-first (OTI taken from EXT_FTI)
+        let n_cenc = ctx.tier.pick(400usize, 20_000);
+        gens.push(Gen::new("end_to_end_cenc", n_cenc, move |ctx, i| {
+            let mut rng = Rng::keyed(ctx.seed, "C07cenc", 0, i as u64);
+            let fec = *rng.pick(&[Fec::RaptorQ, Fec::Raptor, Fec::RaptorQ, Fec::NoCode, Fec::Rs28]);
+            let e = *rng.pick(&[8u16, 16, 32]);
+            let b = match fec { Fec::Raptor | Fec::RaptorQ => rng.range(4, 10) as u32, _ => rng.range(2, 8) as u32 };
+            let mut oti = OtiSpec::new(fec, e, b, if fec == Fec::NoCode { 0 } else { 1 });
+            oti.al = 4;
+            oti.inband_fti = true;
+            // compressible content: a short random phrase repeated, plus some noise
+            let plen = rng.range(3, 9) as usize;
+            let phrase = rng.bytes(plen);
+            let mut data: Vec<u8> = vec![];
+            let target = rng.range(200, 3000) as usize;
+            while data.len() < target {
+                data.extend_from_slice(&phrase);
+                if rng.chance(1, 5) {
+                    data.push(rng.below(256) as u8);
+                }
+            }
+            let spec = SenderSpec::new(OtiSpec::new(Fec::NoCode, 1024, 64, 0));
+            let mut obj = ObjSpec::new(data.clone(), "file:///c07-cenc.bin");
+            obj.oti = Some(oti.clone());
+            obj.cenc = *rng.pick(&[CencSpec::Gzip, CencSpec::Zlib, CencSpec::Deflate]);
+            obj.inband_cenc = true;
+            let mut cr = CaseResult::default();
+            let r = util::guarded(|| emit(&spec, &[obj.clone()], &EmitOpts::default()));
+            let em = match r {
+                Ok(Ok(em)) => em,
+                Ok(Err(_)) => return cr,
+                Err(pn) => {
+                    cr.violations.push(Violation::new("panic", format!("{} @ {}", pn.msg, pn.short_loc())).with("site", pn.file()).with("fec", fec.name()).witness(json!({"oti": oti.json(), "content_length": data.len()})));
+                    return cr;
+                }
+            };
+            let (toi, tl) = match (em.tois[0], em.transfer_len[0]) {
+                (Some(t), Some(l)) => (t, l),
+                _ => return cr, // refused (e.g. Raptor blocks of 2-3 symbols after compression): C01's business
+            };
+            let wit = json!({"oti": oti.json(), "content_length": data.len(), "transfer_length": tl, "cenc": obj.cenc.name()});
+            let p = ref_partition(b as u128, tl as u128, e as u128);
+            let pc = ref_partition(b as u128, data.len() as u128, e as u128);
+            // wire structure + Z announced in EXT_FTI
+            let mut per_block: std::collections::BTreeMap<u32, std::collections::BTreeSet<u32>> = Default::default();
+            let mut z_seen = 0u64;
+            for pk in em.stream.iter().filter(|p| p.toi() == toi) {
+                if (pk.dec.sbn as u128) < p.n && (pk.dec.esi as u128) < p.k(pk.dec.sbn as u128) {
+                    per_block.entry(pk.dec.sbn).or_default().insert(pk.dec.esi);
+                }
+                if let Some(f) = pk.dec.fti.as_ref() {
+                    if f.l != tl {
+                        cr.violations.push(Violation::new("ext_fti_length", format!("EXT_FTI announces transfer length {} but the object's transfer length is {} (content length {})", f.l, tl, data.len())).with("fec", fec.name()).witness(wit.clone()));
+                        break;
+                    }
+                    if let Some(z) = f.z {
+                        z_seen += 1;
+                        if z as u128 != p.n {
+                            cr.violations.push(Violation::new("ext_fti_z", format!("EXT_FTI announces Z={} source blocks; the partition of the transfer length {} has {} (that of the content length {} has {})", z, tl, p.n, data.len(), pc.n)).with("fec", fec.name()).witness(wit.clone()));
+                            break;
+                        }
+                    }
+                }
+            }
+            let bad = (0..p.n as u32).find(|sbn| per_block.get(sbn).map(|s| s.len()).unwrap_or(0) as u128 != p.k(*sbn as u128));
+            if per_block.len() as u128 != p.n || bad.is_some() {
+                cr.violations.push(Violation::new("wire_structure", format!("blocks on the wire do not match the partition of the transfer length (first wrong block {:?}, {} blocks seen, {} expected)", bad, per_block.len(), p.n)).with("fec", fec.name()).with("cenc", true).witness(wit.clone()));
+            }
+            // delivery: FDT first, and object first
+            let objs: Vec<&SPkt> = em.stream.iter().filter(|p| p.toi() == toi).collect();
+            let fdts: Vec<&SPkt> = em.stream.iter().filter(|p| p.toi() == 0).collect();
+            for (name, order) in [("fdt_first", em.stream.iter().collect::<Vec<&SPkt>>()),
+                ("object_first", objs[..1.min(objs.len())].iter().chain(fdts.iter()).chain(objs[1.min(objs.len())..].iter()).cloned().collect::<Vec<&SPkt>>())] {
+                match util::guarded(|| receive(&em.spec.endpoint(), order.iter().map(|p| (p.bytes.as_slice(), p.t)), &RxOpts::default(), None)) {
+                    Ok(rx) => {
+                        let c = rx.log.completes(toi);
+                        cr.count("cenc_receptions", 1);
+                        if c.len() != 1 || c[0].data != data {
+                            cr.violations.push(Violation::new("receiver_disagrees", format!("content-encoded object, {} delivery: not rebuilt (complete writers: {})", name, c.len())).with("fec", fec.name()).with("cenc", true).with("order", name).witness(wit.clone()));
+                        }
+                    }
+                    Err(pn) => cr.violations.push(Violation::new("panic", format!("{} delivery: {} @ {}", name, pn.msg, pn.short_loc())).with("site", pn.file()).with("fec", fec.name()).witness(wit.clone())),
+                }
+            }
+            cr.count("ext_fti_z_checked", z_seen);
+            cr.shape = Some(util::fnv(&format!("cenc|{}|{}|{}|{}", fec.name(), p.n, pc.n, p.nb_large > 0)));
+            cr.states = vec![util::fnv(&format!("cenc{}", p.n != pc.n))];
+            if i % 53 == 0 {
+                cr.sample = Some(json!({"case": wit, "blocks_transfer": p.n as u64, "blocks_content": pc.n as u64}));
+            }
+            limit(&mut cr.violations, 3);
             cr
         }));
         // end to end: structure on the wire == reference partition, receiver delivers
